@@ -101,3 +101,18 @@ package pkg
 //@   ensures err == nil && res.kind == 1
 //@   ensures ordered(strip(left), strip(right)) ==> res.b == (cmp3(strip(left), strip(right)) != 0)
 //@   ensures bothBool(strip(left), strip(right)) ==> res.b == (strip(left).b != strip(right).b)
+
+// ---- C19 as lemmas over the six contracts above (they all share cmp3) -------------------------------------
+//@ lemma[C19] cmp3_trichotomy: forall l RV, r RV :: cmp3(l, r) == -1 || cmp3(l, r) == 0 || cmp3(l, r) == 1
+//@ lemma[C19] ordered_symmetric: forall l RV, r RV :: ordered(l, r) ==> ordered(r, l)
+//@ lemma[C19] cmp3_mirror: forall l RV, r RV :: ordered(l, r) ==> cmp3(l, r) == 0 - cmp3(r, l)
+//@ lemma[C19] cmp3_le_is_lt_or_eq: forall l RV, r RV :: (cmp3(l, r) <= 0) == (cmp3(l, r) < 0 || cmp3(l, r) == 0)
+//@ lemma[C19] cmp3_ge_is_gt_or_eq: forall l RV, r RV :: (cmp3(l, r) >= 0) == (cmp3(l, r) > 0 || cmp3(l, r) == 0)
+//@ lemma[C19] cmp3_ne_is_not_eq: forall l RV, r RV :: (cmp3(l, r) != 0) == !(cmp3(l, r) == 0)
+// width / signedness independence: an integer operand may be replaced by any other integer kind holding the same number
+//@ lemma[C19] cmp3_kindfree_left: forall l RV, l2 RV, r RV :: ordered(l, r) && ordered(l2, r) && (class(l) == 1 || class(l) == 2)
+//@        && (class(l2) == 1 || class(l2) == 2) && l.bits == l2.bits ==> cmp3(l, r) == cmp3(l2, r)
+//@ lemma[C19] cmp3_float_widthfree: forall l RV, l2 RV, r RV :: ordered(l, r) && class(l) == 3 && class(l2) == 3 && l.f == l2.f && wfRV(l2) ==> cmp3(l, r) == cmp3(l2, r)
+// the time leaves compare instants: location never matters
+//@ lemma[C19] cmp3_time_location_free: forall l RV, l2 RV, r RV :: class(l) == 6 && class(l2) == 6 && class(r) == 6 && l.tm.wall == l2.tm.wall && l.tm.ext == l2.tm.ext
+//@        ==> cmp3(l, r) == cmp3(l2, r)
